@@ -105,7 +105,9 @@ func (ex *Exec) callFunc(fr *frame, st *State, reach *Term, fn *ssa.Function, fr
 	}
 	key := funcKey(fn)
 	fc := ex.eng.cs.Funcs[key]
-	if fc != nil && fc.Opts["inline-only"] == "" && fn != ex.top || (fc != nil && fc.Opts["inline-only"] == "" && fn == ex.top && len(ex.stack) > 0) {
+	// a callee under contract is replaced by its contract; this includes a (directly or indirectly) recursive
+	// call of the function being verified (modular treatment of recursion, partial correctness)
+	if fc != nil && fc.Opts["inline-only"] == "" {
 		return ex.applyContract(fr, st, reach, fn, fc, args, instr)
 	}
 	if eff := ex.eng.effectOf(fn); eff != effUnknown && len(fn.Blocks) == 0 || eff == effPure || eff == effNoop {
@@ -326,7 +328,7 @@ func (ex *Exec) invoke(fr *frame, st *State, reach *Term, c *ssa.CallCommon, rec
 	}
 	ex.vc.Assume(reach, nonnil)
 	key := ifaceKey(it, c.Method.Name())
-	if fc, ok := ex.eng.cs.Ifaces[key]; ok {
+	if fc := ex.ifaceContract(key); fc != nil {
 		return ex.applyIfaceContract(fr, st, reach, c, fc, rt, args, instr)
 	}
 	full := key
@@ -867,7 +869,7 @@ func (ex *Exec) scanCall(fr *frame, c *ssa.CallCommon, ms *modSet, depth int, vi
 	if c.IsInvoke() {
 		it := types.Unalias(c.Value.Type())
 		key := ifaceKey(it, c.Method.Name())
-		if fc, ok := ex.eng.cs.Ifaces[key]; ok {
+		if fc := ex.ifaceContract(key); fc != nil {
 			ex.contractMods(fc, nil, ms)
 			return
 		}
@@ -1086,4 +1088,48 @@ func entryOnlyStore(al *ssa.Alloc) bool {
 		}
 	}
 	return n == 1
+}
+
+// ifaceContract: the contract of an interface method visible while verifying the current top-level function:
+// the one declared in the contract files of that function's package, else one from the trusted specs directory.
+func (ex *Exec) ifaceContract(key string) *FuncContract {
+	if fc, ok := ex.eng.cs.Ifaces[ex.scopePkg()+"|"+key]; ok {
+		return fc
+	}
+	if fc, ok := ex.eng.cs.Ifaces["*|"+key]; ok {
+		return fc
+	}
+	// declared by exactly one other package: use that assumption (it is listed in the evidence); with several
+	// competing declarations none is used (the call falls back to the unique implementation or to havoc)
+	var only *FuncContract
+	n := 0
+	for k, fc := range ex.eng.cs.Ifaces {
+		if strings.HasSuffix(k, "|"+key) {
+			only = fc
+			n++
+		}
+	}
+	if n == 1 {
+		return only
+	}
+	return nil
+}
+
+func (ex *Exec) scopePkg() string {
+	if ex.scope != "" {
+		return ex.scope
+	}
+	if ex.top != nil {
+		p := ex.top
+		for p.Parent() != nil {
+			p = p.Parent()
+		}
+		if p.Pkg != nil {
+			return p.Pkg.Pkg.Path()
+		}
+	}
+	if ex.topC != nil {
+		return ex.topC.Pkg
+	}
+	return ""
 }
